@@ -540,3 +540,33 @@ pub fn put_bytes(b: &mut [u8], off: usize, src: &[u8]) {
     cp!(0, 1, 2, 3, 4, 5, 6, 7, 8, 9, 10, 11, 12, 13, 14, 15, 16, 17, 18, 19, 20, 21, 22, 23, 24, 25, 26, 27, 28, 29, 30, 31);
 }
 
+
+// ------------------------------------------------------------------------------------------
+// Deadline of a pending request, derived from ONE reading of the clock (under Kani: the ghost
+// clock's first, arbitrary reading; in a native replay: the real monotonic clock) plus/minus a
+// symbolic distance of at least one second. Never built from ghost values directly, so that a
+// counterexample means the same thing natively: "in time" stays in time (the code's own clock
+// reading follows within microseconds), "expired" stays expired.
+pub struct Deadline {
+    pub expired: bool,
+    pub secs: u64,
+    pub nanos: u32,
+}
+#[cfg(kani)]
+pub fn any_deadline() -> Deadline {
+    let d = Deadline { expired: kani::any(), secs: kani::any(), nanos: kani::any() };
+    kani::assume(d.secs >= 1 && d.secs <= (1 << 20) && d.nanos < 1_000_000_000);
+    d
+}
+pub fn deadline_from_now(d: &Deadline) -> tokio::time::Instant {
+    let base = tokio::time::Instant::now();
+    let dist = std::time::Duration::new(d.secs, d.nanos);
+    if d.expired { base - dist } else { base + dist }
+}
+/// (vacuity guards only) does the ghost clock's NEXT reading still lie before the deadline?
+pub fn ghost_in_time(deadline: tokio::time::Instant) -> bool {
+    unsafe {
+        let i = if crate::stubs::NOW_IDX < 4 { crate::stubs::NOW_IDX } else { 3 };
+        deadline >= tokio::time::Instant::from_std(crate::stubs::make_instant(crate::stubs::NOW_SECS[i], crate::stubs::NOW_NANOS[i]))
+    }
+}
